@@ -8,12 +8,12 @@ export CARGO_NET_OFFLINE=true CARGO_TARGET_DIR="$TD"
 cd "$WT" || exit 2
 git checkout -q -- . ; git clean -fdq tests src
 git apply "$S/patch.diff" || { echo '{"applies": false}' > "$S/confirm.json"; exit 1; }
-cp -r "$S"/mutation_demo_* tests/ 2>/dev/null
+cp -r "$S"/mutation*_demo_* tests/ 2>/dev/null
 touch src/lib.rs
 cargo test --workspace --no-fail-fast --offline > "$S/with_change.log" 2>&1
 # without the change: demo only
 git checkout -q -- src; touch src/lib.rs
-demos=$(ls tests | grep '^mutation_demo_.*\.rs$' | sed 's/\.rs$//')
+demos=$(ls tests | grep '^mutation2\?_demo_.*\.rs$' | sed 's/\.rs$//')
 : > "$S/without_change.log"
 for d in $demos; do cargo test --offline --test "$d" >> "$S/without_change.log" 2>&1; done
 python3 - "$S" <<'PY'
